@@ -204,7 +204,9 @@ theorem aspect_eq_documented (z : Int → Int → K) (hpi : (piK : K) ≠ 0) (rx
   ksimp [TerrainWiring.cell, TerrainWiring.env, aspect_wiring, aspect_cpu, finW, hpi', apply_ite KSt.out]
   rw [e1, e2, e3]
   unfold aspectDoc compass
-  split_ifs <;> simp_all
+  -- (the code's if-chain may list the `A < 0` case separately or leave it to the final `else`: both
+  -- spellings give `90 - A`; a branch combination that cannot occur is closed by its contradictory bounds)
+  split_ifs <;> first | (simp_all; done) | (exfalso; linarith) | (simp_all; linarith)
 
 /-- **curvature_eq_documented** (includes `cellsize_axes`): the cell size is the mean of the two -/
 theorem curvature_eq_documented (z : Int → Int → K) (rx ry : K) (h : rx + ry ≠ 0) (pub : String → NV K) :
